@@ -6,6 +6,7 @@ pub open spec fn val14(x: Seq<u8>, p: int) -> int {
         + 8 * bi(x, p + 10) + 4 * bi(x, p + 11) + 2 * bi(x, p + 12) + bi(x, p + 13)
 }
 /// the 14-bit field of coefficient i
+#[verifier::opaque]
 pub open spec fn pkv(x: Seq<u8>, i: int) -> int { val14(x, 8 + 14 * i) }
 pub open spec fn lg(n: int) -> int { if n == 512 { 9 } else { 10 } }
 pub open spec fn pk_len(n: int) -> int { if n == 512 { 897 } else { 1793 } }
